@@ -58,7 +58,7 @@ def _neg(pr):
 def run_batch(exe, lines, timeout, env=None):
     """Returns (answers or None, rc, stderr).  rc None = wall-clock timeout."""
     e = dict(os.environ)
-    e['ASAN_OPTIONS'] = 'detect_leaks=0:abort_on_error=0'
+    e['ASAN_OPTIONS'] = 'detect_leaks=0:abort_on_error=0:symbolize=%d' % (1 if len(lines) == 1 else 0)
     e['UBSAN_OPTIONS'] = 'print_stacktrace=1'
     if env:
         e.update(env)
@@ -86,6 +86,8 @@ def run_all(exe, lines, chunk=200, timeout=300, env=None):
         todo = [(base, ls)]
         while todo:
             b, l = todo.pop()
+            if len(incidents) >= 12:          # enough failing requests isolated: do not bisect the rest
+                continue
             out, rc, err = run_batch(exe, l, timeout if len(l) > 1 else max(30, timeout // 4), env)
             if out is not None and rc == 0 and len(out) == len(l):
                 for k, a in enumerate(out):
